@@ -344,9 +344,10 @@ class Engine:
         for comp in SP.WF_FIELDS:
             arr = self.harr(st, comp)
             cell = z3.Select(arr, r)
-            st.assume(z3.ForAll([r], z3.Implies(Val.is_RefV(cell), Val.rv(cell) <= a), patterns=[cell]))
+            # only cells of objects that exist now: cells of objects allocated later live in the same array
+            st.assume(z3.ForAll([r], z3.Implies(z3.And(r <= a, Val.is_RefV(cell)), Val.rv(cell) <= a), patterns=[cell]))
             for p in private:
-                st.assume(z3.ForAll([r], cell != Val.RefV(p), patterns=[cell]))
+                st.assume(z3.ForAll([r], z3.Implies(r <= a, cell != Val.RefV(p)), patterns=[cell]))
         if "CTX" in GHOST_SORTS:
             cell = z3.Select(self.harr(st, "#CTX"), r)
             st.assume(z3.ForAll([r], z3.Implies(Val.is_RefV(cell), Val.rv(cell) <= a), patterns=[cell]))
@@ -432,14 +433,26 @@ class Engine:
     def alloc_bound(self, st, r):
         """the allocation frontier that bounds reference r: the entry frontier when r was read from a heap cell that
         has not been written since entry (so the referenced object already existed then), the current one otherwise"""
-        t = r
+        if "$alloc" in st.heap0 and self.entry_term(r, 0):
+            return st.heap0["$alloc"]
+        return self.harr(st, "$alloc")
+
+    def entry_term(self, t, depth):
+        """is t a reference that provably existed at function entry?  (a parameter / module singleton symbol, or read from an
+        entry-heap cell H0!f[...] of such a reference, recursively).  Cells of objects allocated later by callees live in the
+        same H0 arrays (the callee's frame does not mention them), so the index must itself be an entry reference."""
+        if depth > 6:
+            return False
         if z3.is_app(t) and t.decl().name() == "rv" and t.num_args() == 1:
             t = t.arg(0)
-        if z3.is_app(t) and t.decl().kind() == z3.Z3_OP_SELECT:
-            base = t.arg(0)
-            if z3.is_const(base) and base.decl().name().startswith("H0!") and "$alloc" in st.heap0:
-                return st.heap0["$alloc"]
-        return self.harr(st, "$alloc")
+            if z3.is_app(t) and t.decl().kind() == z3.Z3_OP_SELECT:
+                base, idx = t.arg(0), t.arg(1)
+                return z3.is_const(base) and base.decl().name().startswith("H0!") and self.entry_term(idx, depth + 1)
+            return z3.is_const(t) and self.is_entry_symbol(t)
+        return z3.is_const(t) and self.is_entry_symbol(t)
+
+    def is_entry_symbol(self, t):
+        return t.decl().name() in getattr(self, "entry_symbols", ())
 
     def from_ref(self, st, r, hint):
         st.assume(r >= 1)
